@@ -150,7 +150,10 @@ func (b *Boolean) Type() ObjectType {
 
 // ToDynamoDB returns the types attribute value
 func (b *Boolean) ToDynamoDB() types.Item {
-	return types.Item{BOOL: &b.Value}
+	// a fresh bool: b is usually one of the shared TRUE / FALSE objects
+	value := b.Value
+
+	return types.Item{BOOL: &value}
 }
 
 func nativeBoolToBooleanObject(input bool) *Boolean {
@@ -211,7 +214,9 @@ func (n *Null) Inspect() string {
 
 // ToDynamoDB returns the types attribute value
 func (n *Null) ToDynamoDB() types.Item {
-	return types.Item{NULL: &TRUE.Value}
+	value := true
+
+	return types.Item{NULL: &value}
 }
 
 // Error is the representation of errors
